@@ -8,14 +8,14 @@ import sys
 
 HERE = os.path.dirname(os.path.dirname(os.path.abspath(__file__)))
 sys.path.insert(0, HERE)
-from cklstat import canon  # noqa: E402
+from cklstat import canon, normal  # noqa: E402
 
 repo = os.environ.get("CKL_REPO", "/repo")
 pkg = os.path.join(repo, "src", "ckl")
 trees = {}
 for fn in sorted(os.listdir(pkg)):
     if fn.endswith(".py"):
-        trees[fn[:-3]] = ast.parse(open(os.path.join(pkg, fn)).read())
+        trees[fn[:-3]] = normal.normalise(ast.parse(open(os.path.join(pkg, fn)).read()))
 table = canon.build(trees)
 with open(canon.TABLE_PATH, "w") as f:
     json.dump(table, f, indent=0, sort_keys=True)
